@@ -196,6 +196,12 @@ impl LspContext {
         test_connection
     }
 
+    /// Verification seam: the server's end of the connection (to run the main loop's `recv` one message at a time)
+    #[cfg(mos_verif)]
+    pub(crate) fn connection_verif(&self) -> Option<Arc<Connection>> {
+        self.connection.as_ref().map(|c| c.0.clone())
+    }
+
     pub fn add_shutdown_handler(&mut self) -> ShutdownReceiverHandle {
         let (s, r) = crossbeam_channel::bounded(1);
         let handler_id = HANDLER_ID.fetch_add(1, Ordering::Relaxed);
